@@ -135,6 +135,9 @@ CheckCanon(e) ==
                 /\ Chk(v.ast = AstJson(r.node), <<"variant ast json", i>>)
                 /\ Chk(v.jsontext = v1.jsontext, <<"variant serializes differently", i>>)
                 /\ Chk(v.hash = v1.hash, <<"variant hashes differently", i>>)
+                \* the C API route: same verdict, the same JSON, its hash is the FNV-1a of that JSON and so the same for every variant
+                /\ Chk(v.cok, <<"C API: parse / JSON / hash of the variant differs from the Rust API's", i>>)
+                /\ Chk(v.chash = v1.chash, <<"variant has another C API hash", i, v.chash, v1.chash>>)
                 /\ Chk(v.eq, <<"variant AST not equal to the first", i>>)
                 /\ Chk(v.stable, <<"re-serialization differs", i>>)
      /\ Chk(e.other.out # "panic", "partner panicked")
@@ -144,7 +147,8 @@ CheckCanon(e) ==
            LET same == AstJson(r.node) = AstJson(r2.node) IN
            /\ Chk(same <=> (e.other.jsontext = v1.jsontext),
                   <<"structurally different filters must serialize differently; same structure =", same>>)
-           /\ Chk(e.eq12 => (same /\ e.other.hash = v1.hash), "equal ASTs must have equal JSON and hash")
+           /\ Chk(e.eq12 => (same /\ e.other.hash = v1.hash /\ e.other.chash = v1.chash), "equal ASTs must have equal JSON and hash")
+           /\ Chk(e.other.cok, "C API: parse / JSON / hash of the partner differs from the Rust API's")
 
 (* C11: the compiled-size limit is opaque; only its monotone consequences are specified: a      *)
 (* pattern accepted under a limit is accepted under every larger one, every generated pattern   *)
